@@ -260,6 +260,40 @@ Proof. now rewrite <- (json_no_reserved_jcanon pfs (jcanon d)), jcanon_idem, jso
 Lemma jlookup_single name (v : json) : jlookup [(name, v)] name = Some v.
 Proof. cbn. now rewrite String.eqb_refl. Qed.
 
+(* what to_json writes for a data value: already canonical, and without reserved object when the
+   value has none *)
+Lemma jstr_of_to_json_sv_of y : jstr_of (to_json (sv_of y)) = vstr_of y.
+Proof. destruct y; reflexivity. Qed.
+Lemma jcanon_to_json_data v : json_data v = true -> jcanon (to_json (sv_of v)) = to_json (sv_of v).
+Proof.
+  induction v as [x|x| |s|l IH|r IH|id ar bd sc _|bi|v _] using value_ind'; try reflexivity; try discriminate.
+  - cbn. intros H. unfold jnum_of_f64. now rewrite H.
+  - cbn [json_data sv_of]. rewrite to_json_list. intros H. cbn [jcanon]. f_equal.
+    rewrite !map_map. apply map_ext_in. intros x Hx. rewrite Forall_forall in IH. rewrite forallb_forall in H. auto.
+  - rewrite json_data_rec. intros H. apply andb_prop in H as [_ Hd].
+    rewrite sv_of_rec, to_json_rec, mapv_mapv, jcanon_obj. f_equal.
+    rewrite bmap_collect_mapv, bmap_collect_idem, <- bmap_collect_mapv, mapv_mapv. f_equal.
+    apply mapv_ext_in. intros k x Hx. rewrite Forall_forall in IH. rewrite forallb_forall in Hd.
+    apply (IH (k, x) Hx (Hd (k, x) Hx)).
+Qed.
+Lemma json_no_reserved_to_json pfs v :
+  json_data v = true -> value_no_reserved pfs v = true -> json_no_reserved pfs (to_json (sv_of v)) = true.
+Proof.
+  induction v as [x|x| |s|l IH|r IH|id ar bd sc _|bi|v _] using value_ind'; try reflexivity; try discriminate.
+  - cbn [json_data sv_of value_no_reserved]. rewrite to_json_list. cbn [json_no_reserved].
+    rewrite !forallb_forall. intros Hd Hr y Hy. rewrite map_map in Hy.
+    apply in_map_iff in Hy as (x & <- & Hx). rewrite Forall_forall in IH. auto.
+  - rewrite json_data_rec. cbn [value_no_reserved]. intros Hd Hr.
+    apply andb_prop in Hd as [Hnd Hd]. apply andb_prop in Hr as [Hr0 Hr].
+    rewrite sv_of_rec, to_json_rec, mapv_mapv. cbn [json_no_reserved]. apply andb_true_intro. split.
+    + rewrite <- Hr0. f_equal. unfold reserved_obj.
+      rewrite rec_get_bmap_collect, get_last_mapv, get_last_NoDup by (now apply nodup_keys_keys).
+      destruct (rec_get r FN_KEY) as [y|]; cbn [option_map]; [now rewrite jstr_of_to_json_sv_of|reflexivity].
+    + apply forallb_forall. intros [k j] Hj. apply bmap_collect_in in Hj. apply in_mapv in Hj as (x & Hx & ->).
+      cbn [snd]. rewrite Forall_forall in IH. rewrite forallb_forall in Hd, Hr.
+      apply (IH (k, x) Hx (Hd (k, x) Hx) (Hr (k, x) Hx)).
+Qed.
+
 (* ------------------------------------------------------------------ parse-print-parse, echo on text *)
 Section TextEchoProofs.
   Variable pfs : string -> option (list lamarg * string).
@@ -381,6 +415,27 @@ Section TextEchoProofs.
       rewrite forallb_forall in Hr. exact (Hr (key, x) (jlookup_In m key x Hx)).
     - apply jlookup_single.
     - rewrite H3. unfold out. now rewrite jcanon_idem.
+  Qed.
+
+  (* sentence one at the level of the bytes: what a run writes for a data value under <name>, a
+     second run `output <name> = inputs.<name>` reading those bytes writes again, byte for byte *)
+  Theorem cli_text_out_echo_fixed_point v name :
+    json_data v = true -> value_no_reserved pfs v = true ->
+    json_all okn (to_json (sv_of v)) = true ->
+    (jdepth (write_outputs [(name, sv_of v)]) <= 127)%nat ->
+    let out := jprint fmt_pieces (write_outputs [(name, sv_of v)]) in
+    cli_text_echo pfs pbody emit nameof fmt_pieces float_of_tok out name name = Ok out.
+  Proof.
+    intros Hd Hr Hok Hdepth out.
+    assert (Hw : write_outputs [(name, sv_of v)] = JObj [(name, to_json (sv_of v))]) by reflexivity.
+    assert (Hparse : json_from_str float_of_tok out = Some (JObj [(name, to_json (sv_of v))])).
+    { unfold out. rewrite Hw in *.
+      apply (json_text_roundtrip_g fmt_pieces float_of_tok okf H_print_wf H_roundtrip H_okf_finite); [|exact Hdepth].
+      cbn [json_all forallb snd]. now rewrite Hok. }
+    destruct (cli_text_echo_object out [(name, to_json (sv_of v))] name name (to_json (sv_of v)) Hparse) as (H1 & _).
+    - cbn [forallb snd]. rewrite sj_build_to_json, andb_true_r. now apply json_no_reserved_to_json.
+    - apply jlookup_single.
+    - rewrite H1, (jcanon_to_json_data v Hd). unfold out. now rewrite Hw.
   Qed.
 
   (* the first sentence of the property on text, for the class: value -> text -> second run *)
